@@ -1050,8 +1050,8 @@ META = {
                 'cardinalDirection returns EAST/WEST/SOUTH/NORTH exactly by dominant axis (ties to x) and sign (C14_cardinalDirection_spec, _range), flips when the pair '
                 'is reversed unless the points coincide (then WEST both ways: _antisym, _coincident), is translation invariant (_translate); compassDirection on '
                 'distinct points is the exact sign pattern of (dx, dy) (C14_compassDirection_spec, _antisym) and agrees with cardinalDirection on cardinal directions, '
-                'otherwise cardinalDirection is one of its two cardinal components (C14_compass_cardinal_consistent); the throw for coincident points is NOT '
-                'translated (hypothesis `distinct`) and is checked by the lattice sweep (compiled functions vs the theorem statements on 9 x (2R+1)^2 pairs, R = 4 / 12), '
+                'otherwise cardinalDirection is one of its two cardinal components (C14_compass_cardinal_consistent); the throw for coincident points is '
+                'translated as a recorded precondition, proved equivalent to the hypothesis `distinct` (C14_compassDirection_returns_iff_distinct), and also checked by the lattice sweep (compiled functions vs the theorem statements on 9 x (2R+1)^2 pairs, R = 4 / 12), '
                 'which is also the search for a failing input when a Compass proof or translation breaks. '
                 'Oracle and padding: Proved in Coq, for all drawings and '
                 'all tolerance settings: the checker hola_ok is sound AND complete for the declaratively stated output conditions of doHOLA '
